@@ -6,7 +6,7 @@ driver ops of C20
 
 `run <op>…` — one history per line, one token per operation, fields separated by commas:
 `nc,<parent>,<-|method>` `ni,<cls>` `set,<k>,<target>,<val>` `del,<k>,<target>` `get,<k>,<target>`
-`rend,<inst>,<val>` `dump`; settings `fs rm jq rf na`; targets `c<id>` / `i<id>`;
+`rend,<inst>,<val>[,<entry>]` (entries `static str fmt draw anim iter`) `ni,<cls>,s` (still image) `dump`; settings `fs rm jq rf na`; targets `c<id>` / `i<id>`;
 values `N` `b0` `b1` `i<int>` `s<hex of utf-8>` `o`.
 Response: `ok <r1>|<r2>|…` (`c<id>`, `i<id>`, `ok`, a value, `m:<method>`, `!<ExceptionClass>`,
 dump = rows `;`-joined, entries `,`-joined).  `spec <op>…` runs the specification machine instead.
@@ -20,7 +20,8 @@ def libOfGenerated : List LibClass :=
 
 def defaultsOfGenerated : Defaults :=
   { jq := Generated.jqDefault, rf := Generated.rfDefault, fsMeta := Generated.fsMeta,
-    jqMax := Generated.jqMax, na := Generated.naDefault }
+    jqMax := Generated.jqMax, na := Generated.naDefault,
+    animName := Generated.animName, wholeName := Generated.wholeName }
 
 def pVal (t : String) : Option PyVal :=
   if t == "N" then some .none
@@ -53,6 +54,11 @@ def pTarget (t : String) : Option Target :=
   | 'i' :: r => (String.ofList r).toNat?.map .inst
   | _ => none
 
+def pEntry (t : String) : Option Entry :=
+  if t == "static" then some .static else if t == "str" then some .str
+  else if t == "fmt" then some .fmt else if t == "draw" then some .draw
+  else if t == "anim" then some .anim else if t == "iter" then some .iter else none
+
 def pOp (tok : String) : Option Op :=
   match tok.splitOn "," with
   | ["nc", p, d] => do
@@ -61,11 +67,13 @@ def pOp (tok : String) : Option Op :=
     match ← pVal d with
     | .str x => pure (.nc p (some x))
     | _ => none
-  | ["ni", c] => do pure (.ni (← c.toNat?))
+  | ["ni", c] => do pure (.ni (← c.toNat?) true)
+  | ["ni", c, "s"] => do pure (.ni (← c.toNat?) false)
   | ["set", k, t, v] => do pure (.set (← pSetting k) (← pTarget t) (← pVal v))
   | ["del", k, t] => do pure (.del (← pSetting k) (← pTarget t))
   | ["get", k, t] => do pure (.get (← pSetting k) (← pTarget t))
-  | ["rend", i, v] => do pure (.rend (← i.toNat?) (← pVal v))
+  | ["rend", i, v] => do pure (.rend (← i.toNat?) (← pVal v) .static)
+  | ["rend", i, v, e] => do pure (.rend (← i.toNat?) (← pVal v) (← pEntry e))
   | ["dump"] => some .dump
   | _ => none
 
